@@ -77,7 +77,7 @@ func (c *compiler) toIrType(ddpType ddptypes.Type) ddpIrType {
 		case ddptypes.VARIABLE:
 			return c.ddpanylist
 		default:
-			return c.structTypes[underlying.(*ddptypes.StructType)].listType
+			return c.structIrType(underlying.(*ddptypes.StructType)).listType
 		}
 	} else {
 		switch ddpType {
@@ -98,9 +98,20 @@ func (c *compiler) toIrType(ddpType ddptypes.Type) ddpIrType {
 		case ddptypes.VoidType{}:
 			return c.void
 		default: // struct types
-			return c.structTypes[ddpType.(*ddptypes.StructType)]
+			return c.structIrType(ddpType.(*ddptypes.StructType))
 		}
 	}
+}
+
+// returns the ir type of a struct type and declares it first if this module has not seen it yet
+// (a Kombination that is private to another module is needed here
+// when a generic function of that module, which uses it in its body, is instantiated in this module)
+func (c *compiler) structIrType(typ *ddptypes.StructType) *ddpIrStructType {
+	if structType, ok := c.structTypes[typ]; ok {
+		return structType
+	}
+	c.defineOrDeclareStructType(typ)
+	return c.structTypes[typ]
 }
 
 // used to handle possible reference parameters
